@@ -234,7 +234,7 @@ def cases(tier, seed):
     for n in range(1, nmax + 1):
         for s in range(A000669[n]):
             yield {"gen": "shape", "n": n, "s": s}
-    nrand = {"quick": 900, "thorough": 60000}[tier]
+    nrand = {"quick": 2400, "thorough": 90000}[tier]
     for k in range(nrand):
         yield {"gen": ("big", "inv", "tab", "count", "count", "cnt_ms")[k % 6], "k": k}
         if k == 40:
